@@ -276,9 +276,35 @@ pub fn emit_srcinfo(a: &Args, out: &mut Out) {
         }
         strings.push(s);
     }
-    for s in &strings {
+    // the same queries on the SourceInfo of linked object files (their combined source is built by the linker,
+    // not by SourceInfo::new): sources with and without a final newline, CRLF, blank and whitespace-only lines
+    let mut linked: Vec<SourceInfo> = vec![];
+    {
+        use lc3_ensemble::asm::{assemble_debug, ObjectFile};
+        use lc3_ensemble::parse::parse_ast;
+        let heads = ["", "\n", "; c\r\n", "  \n\t\n"];
+        let tails = ["", "\n", "\r\n", "\n\n", "\n  ", " ; x"];
+        let mut objs = vec![];
+        for (i, h) in heads.iter().enumerate() { for (j, t) in tails.iter().enumerate() {
+            let src = format!("{h}.orig x{:04X}\nL{i}{j} ADD R0, R0, #0 ; \u{e9}\r\n  NOT R1, R1\n.end{t}", 0x3000 + 0x10 * (i * tails.len() + j));
+            if let Ok(ast) = parse_ast(&src) { if let Ok(o) = assemble_debug(ast, &src) { objs.push(o); } }
+        } }
+        for k in 0..objs.len() {
+            let (x, y) = (objs[k].clone(), objs[(k * 7 + 3) % objs.len()].clone());
+            if k == (k * 7 + 3) % objs.len() { continue; }
+            if let Ok(o) = ObjectFile::link(x, y) {
+                if let Some(si) = o.symbol_table().and_then(|t| t.source_info()) { linked.push(si.clone()); }
+                // a third file on top
+                if let Ok(o3) = ObjectFile::link(o, objs[(k * 5 + 1) % objs.len()].clone()) {
+                    if let Some(si) = o3.symbol_table().and_then(|t| t.source_info()) { linked.push(si.clone()); }
+                }
+            }
+        }
+    }
+    let fresh: Vec<(SourceInfo, String)> = strings.iter().map(|s| (SourceInfo::new(s), s.clone())).collect();
+    let all: Vec<(SourceInfo, String)> = fresh.into_iter().chain(linked.into_iter().map(|si| { let t = si.source().to_string(); (si, t) })).collect();
+    for (si, s) in &all {
         let r = js::guard(|| {
-            let si = SourceInfo::new(s);
             let n = si.count_lines();
             let spans: Vec<serde_json::Value> = (0..n + 2).map(|i| match si.line_span(i) { Some(r) => json!([r.start, r.end]), None => json!([-1, -1]) }).collect();
             let texts: Vec<serde_json::Value> = (0..n + 2).map(|i| match si.read_line(i) { Some(t) => json!([1, js::bytes(t.as_bytes())]), None => json!([0, []]) }).collect();
